@@ -123,19 +123,17 @@ Proof.
 Qed.
 
 (* guards and FindLE on a well-formed state *)
-Lemma update_enter s t P ins del :
-  WF2 s -> in_range s t P ins del -> (ins <> 0 \/ del <> 0) ->
+Lemma update_enter_gen s t P ins del :
+  WF2 s -> slen s <= MaxU32 -> 0 <= t < MaxU32 -> 0 <= P <= slen s ->
+  0 <= ins <= MaxU32 -> 0 <= del <= MaxU32 -> (ins <> 0 \/ del <> 0) ->
   exists L ok ov R, s = L ++ (ok, ov) :: R /\ ok <= P /\ first_gt P R /\
     find_le P [] s = Some (L, (ok, ov), R) /\
     update t P ins del s = update_body t P ins del L (ok, ov) R.
 Proof.
-  intros (Hinc & Hend & v0 & r & Es) (Ht & HP & Hi & Hd & Hlen & H32) Hne. subst s.
+  intros (Hinc & Hend & v0 & r & Es) Hs32 Ht HP Hi Hd Hne. subst s.
   destruct (find_le_spec r (0, v0) [] P ltac:(simpl; lia)) as (L & [ok ov] & R & Ef & Es & Hok & Hgt).
   change ([] ++ L) with L in Ef. cbn [fst] in Hok.
   exists L, ok, ov, R. repeat split; auto.
-  assert (Hs : slen ((0, v0) :: r) <= MaxU32 + del - ins) by lia.
-  assert (Hsl : 0 <= slen ((0, v0) :: r)).
-  { unfold slen. simpl. simpl in Hinc. pose proof (klast_ge _ _ (proj2 Hinc)). lia. }
   unfold update.
   replace (t <? 0) with false by (symmetry; apply Z.ltb_ge; lia).
   replace (t >=? MaxU32) with false by (symmetry; rewrite Z.geb_leb; apply Z.leb_gt; lia).
@@ -145,13 +143,29 @@ Proof.
   replace (del <? 0) with false by (symmetry; apply Z.ltb_ge; lia).
   replace (ins >? MaxU32) with false by (symmetry; rewrite Z.gtb_ltb; apply Z.ltb_ge; lia).
   replace (del >? MaxU32) with false by (symmetry; rewrite Z.gtb_ltb; apply Z.ltb_ge; lia).
-  cbn [orb]. rewrite (lor_nonzero ins del Hi Hd Hne).
+  cbn [orb]. rewrite (lor_nonzero ins del ltac:(lia) ltac:(lia) Hne).
   unfold update_core. cbn [fst]. rewrite (u32_id P) by lia.
   change (0 =? 0) with true. cbn [negb]. rewrite andb_false_r.
   replace (P >? klast 0 ((0, v0) :: r)) with false
     by (symmetry; rewrite Z.gtb_ltb; apply Z.ltb_ge; unfold slen in *; lia).
   replace (P <? 0) with false by (symmetry; apply Z.ltb_ge; lia).
   rewrite Ef. reflexivity.
+Qed.
+
+Lemma slen_nonneg s : WF2 s -> 0 <= slen s.
+Proof.
+  intros (Hinc & _ & v0 & r & Es). subst s. unfold slen. simpl. simpl in Hinc.
+  pose proof (klast_ge _ _ (proj2 Hinc)). lia.
+Qed.
+
+Lemma update_enter s t P ins del :
+  WF2 s -> slen s <= MaxU32 -> in_range s t P ins del -> (ins <> 0 \/ del <> 0) ->
+  exists L ok ov R, s = L ++ (ok, ov) :: R /\ ok <= P /\ first_gt P R /\
+    find_le P [] s = Some (L, (ok, ov), R) /\
+    update t P ins del s = update_body t P ins del L (ok, ov) R.
+Proof.
+  intros HWF Hs32 (Ht & HP & Hi & Hd & Hlen & H32) Hne.
+  apply update_enter_gen; auto; lia.
 Qed.
 
 (* compatibility of the deleted lines gives compatibility of the visited nodes *)
@@ -184,12 +198,15 @@ Proof.
 Qed.
 
 Theorem update_pointwise t P ins del s :
-  WF2 s -> in_range s t P ins del -> (ins <> 0 \/ del <> 0) -> compat_lines s t P del ->
-  exists s', update t P ins del s = Ok (s', upd_reports t P ins del s) /\ WF2 s' /\
+  WF s -> in_range s t P ins del -> (ins <> 0 \/ del <> 0) -> compat_lines s t P del ->
+  exists s', update t P ins del s = Ok (s', upd_reports t P ins del s) /\ WF s' /\
      slen s' = slen s + ins - del /\ forall i, 0 <= i -> sval s' i = spec_val s t P ins del i.
 Proof.
-  intros HWF Hr Hne Hc.
-  destruct (update_enter s t P ins del HWF Hr Hne) as (L & ok & ov & R & Es & Hok & Hgt & Ef & E).
+  intros HWF0 Hr Hne Hc. pose proof (WF_WF2 s HWF0) as HWF.
+  assert (Hs32 : slen s <= MaxU32) by (destruct HWF0 as (_ & _ & _ & H); exact H).
+  assert (HW' : forall s', WF2 s' -> slen s' = slen s + ins - del -> WF s').
+  { intros s' W Hl. apply WF2_WF; auto. rewrite len_slen, Hl. destruct Hr as (_ & _ & _ & _ & _ & H). exact H. }
+  destruct (update_enter s t P ins del HWF Hs32 Hr Hne) as (L & ok & ov & R & Es & Hok & Hgt & Ef & E).
   destruct Hr as (Ht & HP & Hi & Hd & Hlen & H32).
   rewrite E. unfold upd_reports. rewrite Ef. subst s.
   assert (Ht32 : 0 <= t <= MaxU32) by lia.
@@ -200,7 +217,7 @@ Proof.
   - subst del. assert (Hins : 0 < ins) by lia.
     destruct (ins_only_i_spec t P ins Hins ltac:(unfold TreeEnd; lia) L ok ov R HWF Hok Hgt ltac:(lia))
       as (s' & Es' & W & Hl & Hv).
-    exists s'. split; [|split; [exact W|split; [lia|exact Hv]]].
+    exists s'. split; [|split; [apply HW'; auto; lia|split; [lia|exact Hv]]].
     unfold update_body. replace (ins >? 0) with true by (symmetry; apply Z.gtb_lt; lia).
     rewrite update_time_self. rewrite Z.eqb_refl, app_nil_r.
     destruct HWF as (Hinc & _ & _).
@@ -218,18 +235,18 @@ Proof.
     + subst ins. change (0 >? 0) with false. cbn [app].
       destruct (pure_del_spec t P del Hdel HP Ht32 L ok ov R HWF Hok Hgt Hlen ltac:(lia) Hcl)
         as (s' & E' & W & Hl & Hv).
-      exists s'. split; [exact E'|split; [exact W|split; [lia|exact Hv]]].
+      exists s'. split; [exact E'|split; [apply HW'; auto; lia|split; [lia|exact Hv]]].
     + assert (Hins : 0 < ins) by lia.
       replace (ins >? 0) with true by (symmetry; apply Z.gtb_lt; lia).
       destruct (replace_spec t P ins del Hdel Hins HP Ht32 ltac:(unfold TreeEnd; lia) L ok ov R HWF Hok Hgt Hlen H32 Hcl)
         as (s' & E' & W & Hl & Hv).
-      exists s'. split; [exact E'|split; [exact W|split; [exact Hl|exact Hv]]].
+      exists s'. split; [exact E'|split; [apply HW'; auto|split; [exact Hl|exact Hv]]].
 Qed.
 
 (* the main value-level theorem *)
 Theorem update_refines t P ins del s :
-  WF2 s -> in_range s t P ins del -> (ins <> 0 \/ del <> 0) -> compat_lines s t P del ->
-  exists s', update t P ins del s = Ok (s', upd_reports t P ins del s) /\ WF2 s' /\
+  WF s -> in_range s t P ins del -> (ins <> 0 \/ del <> 0) -> compat_lines s t P del ->
+  exists s', update t P ins del s = Ok (s', upd_reports t P ins del s) /\ WF s' /\
     slen s' = slen s + ins - del /\
     flatten s' = arr_update t P ins del (flatten s).
 Proof.
@@ -237,7 +254,7 @@ Proof.
   destruct (update_pointwise t P ins del s HWF Hr Hne Hc) as (s' & E & W & Hl & Hv).
   destruct Hr as (Ht & HP & Hi & Hd & Hlen & H32).
   exists s'. split; [exact E|split; [exact W|split; [exact Hl|]]].
-  rewrite (flatten_tab s' W), (flatten_tab s HWF), Hl.
+  rewrite (flatten_tab s' (WF_WF2 _ W)), (flatten_tab s (WF_WF2 _ HWF)), Hl.
   rewrite arr_update_tab; auto.
   apply map_zseq_ext. intros i Hi'. rewrite Hv by lia. reflexivity.
 Qed.
